@@ -1,9 +1,9 @@
 (* C07 — a saved checkpoint restores an equivalent agent.
    Property theorems only; each is closed by [exact] of a lemma proved in C07/Proofs.v or C07/ProofsAbs.v.
    The model (Evo/Evo.v + C07/Model.v) is tied to /repo by the correspondence check of harness/c07.py. *)
-From Coq Require Import List NArith QArith Bool Ascii.
+From Coq Require Import List NArith QArith Bool Ascii Lia.
 Import ListNotations.
-From AgileV Require Import Evo.Heap Evo.Evo Evo.EvoProofs C07.Model C07.Proofs C07.ProofsAbs C07.ProofsInv C07.ProofsShare C07.ProofsHist C07.ProofsPrefix.
+From AgileV Require Import Evo.Heap Evo.Evo Evo.EvoProofs C07.Model C07.Proofs C07.ProofsAbs C07.ProofsInv C07.ProofsShare C07.ProofsHist C07.ProofsPrefix C07.ProofsHidden.
 Open Scope N_scope.
 
 (* LOAD_SAVE_ABS — for every agent a (ANY architecture descriptors, block sizes, contents, optimizers, hyper-parameters,
@@ -58,6 +58,23 @@ Theorem checkpoint_in_history : forall (KS : list key) (c0 : cworld) (ops1 ops2 
   exists r, w_pop (cw c3) = w_pop (cw c2) ++ [r] /\ abs (w_store (cw c3)) r = abs (w_store (cw c1)) a.
 Proof. exact checkpoint_in_history_lemma. Qed.
 Print Assumptions checkpoint_in_history.
+
+(* ... and the load_checkpoint path: after ANY history save member i, continue with ANY history, then ANY member j of the
+   population at that time (other architecture / weights / optimizer state / hyper-parameters, or the saved member itself,
+   rolled back) loads the file: member j has exactly the view member i had when it was saved; all other members are the
+   same records as before. *)
+Theorem checkpoint_into_history : forall (KS : list key) (c0 : cworld) (ops1 ops2 : list cop) (i : nat) (a : agent) (j : nat) (t : agent),
+  WF (cw c0) -> all_keys KS c0 -> keys_good KS = true -> files_free c0 ->
+  let c1 := crun c0 ops1 in
+  nth_error (w_pop (cw c1)) i = Some a -> no_hidden a = true -> no_share (a_reg a) = true ->
+  let c2 := crun (cstep c1 (CSave i)) ops2 in
+  nth_error (w_pop (cw c2)) j = Some t -> no_share (a_reg t) = true ->
+  snd (load_checkpoint (snd (save (w_store (cw c1)) a)) (w_store (cw c2), t)) = true ->
+  let c3 := cstep c2 (CLoadInto (length (cw_files c1)) j) in
+  exists r, nth_error (w_pop (cw c3)) j = Some r /\ abs (w_store (cw c3)) r = abs (w_store (cw c1)) a /\
+            (forall k, k <> j -> nth_error (w_pop (cw c3)) k = nth_error (w_pop (cw c2)) k).
+Proof. exact checkpoint_into_history_lemma. Qed.
+Print Assumptions checkpoint_into_history.
 
 (* non-vacuity: a DQN-like member is trained and architecture-mutated, saved, trained on / scored / saved again, and
    the first file is then loaded: all hypotheses hold (computed) and the theorem yields the restored member *)
@@ -294,6 +311,42 @@ Theorem share_hidden_lost_refuted :
     map (rd (fst r)) (blk (snd r) (2, cHenc)) <> map (rd (fst r)) (blk (snd r) (1, cEnc)).
 Proof. exact share_hidden_lost_refuted_lemma. Qed.
 Print Assumptions share_hidden_lost_refuted.
+
+(* WHAT IS LOST, for ALL agents — a registry whose hook shares the policy's encoder with duplicate-free targets: in the agent
+   produced by restoring ANY well-formed file into ANY agent with the file's block keys, every target's hidden block has the size
+   of the policy's encoder block and holds only contents issued DURING the restore (the constructor values of the rebuilt
+   policy encoder, copied by the hook before any state dict is loaded). *)
+Theorem restore_hidden_fresh : forall (b : blob) (x0 : lstate) (p : name) (others : list name) (o : name) (u : list loc),
+  okst x0 -> map fst (a_blocks (snd x0)) = map fst (bl_blocks b) -> keys_nodupb (map fst (bl_blocks b)) = true ->
+  r_hooks (a_reg (snd x0)) = [HShare p others] -> NoDup others -> ~ In p others -> In o others ->
+  In ((p, cEnc), u) (bl_blocks b) -> In (o, cHenc) (map fst (bl_blocks b)) ->
+  newer (s_fresh (fst x0)) (cont (restore b x0) (o, cHenc)) /\
+  length (cont (restore b x0) (o, cHenc)) = length u.
+Proof. exact restore_hidden_fresh_lemma. Qed.
+Print Assumptions restore_hidden_fresh.
+
+(* ... hence, in every store in which allocated cells hold issued content ids, for EVERY savable agent whose hook shares a
+   non-empty policy encoder: the hidden encoder copy of every target of the restored agent differs from the saved one
+   (the universal form of share_hidden_lost_refuted; known finding restore:{DDPG,TD3,PPO}+share:*:henc). *)
+Theorem share_hidden_lost_always : forall (s : store) (a : agent) (p : name) (others : list name) (o : name),
+  savable a = true -> Forall (fun l => l < s_next s) (agent_locs a) -> fresh_ok s ->
+  r_hooks (a_reg a) = [HShare p others] -> NoDup others -> ~ In p others -> In o others ->
+  blk a (p, cEnc) <> [] -> In (p, cEnc) (map fst (a_blocks a)) -> In (o, cHenc) (map fst (a_blocks a)) ->
+  let r := roundtrip s a in
+  map (rd (fst r)) (blk (snd r) (o, cHenc)) <> map (rd s) (blk a (o, cHenc)).
+Proof. exact share_hidden_lost_always_lemma. Qed.
+Print Assumptions share_hidden_lost_always.
+
+(* non-vacuity: the PPO-like agent with a shared encoder satisfies the hypotheses of share_hidden_lost_always *)
+Example share_hidden_lost_always_hyps :
+  savable agent_share = true /\ fresh_ok store_share /\ r_hooks (a_reg agent_share) = [HShare 1 [2]] /\
+  blk agent_share (1, cEnc) <> [] /\ In (1, cEnc) (map fst (a_blocks agent_share)) /\ In (2, cHenc) (map fst (a_blocks agent_share)).
+Proof.
+  split; [vm_compute; reflexivity|]. split.
+  - intros l Hl. cbn in Hl. assert (H : l = 0 \/ l = 1 \/ l = 2 \/ l = 3) by lia.
+    destruct H as [H|[H|[H|H]]]; subst l; vm_compute; reflexivity.
+  - split; [reflexivity|]. split; [discriminate|]. split; vm_compute; tauto.
+Qed.
 
 (* REFUTED, pinned behaviour (before fix 3d1411a) — a DQN target whose tensors are outside state_dict is not saved. *)
 Theorem dqn_pinned_target_lost_refuted :
